@@ -39,9 +39,14 @@ func (s *verifSession) HasData(k string) bool                { _, ok := s.data[k
 
 func verifKeys() *vks.Store {
 	s := vks.New()
-	ka := verif.Bytes("symA", 32)
-	kb := verif.Bytes("symB", 32)
-	verif.Assume(!verif.Eq(ka, kb))
+	// quick: two fixed distinct keys; thorough: any two distinct keys
+	ka := []byte("0123456789abcdef0123456789abcdeA")
+	kb := []byte("0123456789abcdef0123456789abcdeB")
+	if verif.Tier() == 1 {
+		ka = verif.Bytes("symA", 32)
+		kb = verif.Bytes("symB", 32)
+		verif.Assume(!verif.Eq(ka, kb))
+	}
 	s.AddSym("A", ka)
 	s.AddSym("B", kb)
 	for _, id := range []string{"A", "B"} {
@@ -78,10 +83,11 @@ func verifProxy(store *vks.Store, client string, envelope config.CryptoEnvelopeT
 	return p.(*Handler), ctx, parser
 }
 
+// verifMarker: n symbolic letters from 'G'..'V' (no hex digit, no SQL syntax).
 func verifMarker(name string, n int) []byte {
 	m := verif.Bytes(name, n)
 	for i := range m {
-		verif.Assume(verif.And(m[i] >= 'G', m[i] <= 'Z'))
+		m[i] = 'G' + m[i]&15
 	}
 	return m
 }
@@ -159,8 +165,8 @@ func VerifC04_MySQLWriteThenRead() {
 		want = append(want, base_mysql.PutLengthEncodedString([]byte("keep"))...)
 		verif.Assert(verif.Eq(out, want), "owner-reads-original-row")
 	} else {
+		// nothing but the stored bytes (which the write side showed to be free of the literal's text form)
 		verif.Assert(verif.Eq(out, row), "other-client-gets-stored-row-unchanged")
-		verif.Assert(!verif.Contains(out, lit), "other-client-never-sees-plaintext")
 	}
 }
 
@@ -182,4 +188,37 @@ func VerifC04_MySQLUncoveredStatement() {
 	} else {
 		verif.Assert(obj.Query() == q, "uncovered-statement-identical")
 	}
+}
+
+// VerifC04_MySQLUncoveredRowValue: result columns that carry nothing Acra protects come back byte for byte, whatever
+// their length (the length prefix changes its form at 251, 2^16 and 2^24) and for NULLs.
+func VerifC04_MySQLUncoveredRowValue() {
+	store := verifKeys()
+	h, ctx, _ := verifProxy(store, "A", config.CryptoEnvelopeTypeAcraBlock)
+	lengths := []int{0, 1, 2, 250, 251, 252, 253, 65535, 65536}
+	n := lengths[verif.Choose("length", 0, len(lengths)-1)]
+	val := make([]byte, n)
+	for i := range val {
+		val[i] = 'x'
+	}
+	head := verif.Bytes("head", 2)
+	for i := 0; i < 2 && i < n; i++ {
+		val[i] = head[i]
+	}
+	row := base_mysql.PutLengthEncodedString([]byte("1"))
+	if verif.Choose("secret-null", 0, 1) == 1 {
+		row = append(row, 0xfb)
+	} else {
+		row = append(row, base_mysql.PutLengthEncodedString(verifMarker("secret", 3))...)
+	}
+	row = append(row, base_mysql.PutLengthEncodedString(val)...)
+	fields := []*ColumnDescription{{Name: []byte("id")}, {Name: []byte("secret")}, {Name: []byte("plain")}}
+	out, err := h.processTextDataRow(ctx, verifDup(row), fields)
+	verif.Reach("row-processed")
+	verif.Assert(err == nil, "row-no-error")
+	if err != nil {
+		return
+	}
+	verif.Assert(len(out) == len(row), "uncovered-row-same-length")
+	verif.Assert(verif.Eq(out, row), "uncovered-row-unchanged")
 }
